@@ -7,7 +7,7 @@ CONSTANTS
   UserSharing = FALSE
   ManualReset = FALSE
   UserNoPrecalc = FALSE
-  Hows = {"coef", "slice", "utility", "periodic", "aonly", "bonly", "conly"}
+  Hows = {"coef", "slice", "utility", "periodic", "view", "aonly", "bonly", "conly"}
   BuildKinds = {}
 CONSTRAINT Bounded
 ACTION_CONSTRAINT EmitEdge
